@@ -45,6 +45,12 @@ func (b *recBackoff) NextBackOff() time.Duration {
 		b.i++
 	}
 	b.last = d
+	if !b.w.single && b.w.c.S.PlanP(300) {
+		// a user-supplied backoff may take its time (simulated time here); the
+		// container is free to call it with its lock held
+		b.w.c.S.Count("probe:backoff-slow")
+		stime.Sleep([]time.Duration{time.Millisecond, 20 * time.Millisecond}[b.w.c.S.Plan(2)])
+	}
 	if b.w.needReset {
 		b.w.c.Fail("C14.M3.backoff-not-reset", "NextBackOff was called after a successful exit without Reset in between")
 	}
@@ -81,21 +87,29 @@ type watch struct {
 	closed bool
 }
 
+// callRec is the interval of one driver call that may legitimately (re)start the routine.
+type callRec struct {
+	inv, ret int
+	kind     int // 0: RestartRoutine / new routine / new state; 1: SetContext(restart=true)
+}
+
 type world struct {
-	c         *core.Ctx
-	state     bool // StateRoutineContainer
-	rc        *routine.RoutineContainer
-	sc        *routine.StateRoutineContainer[int]
-	bo        *recBackoff
-	retry     bool
-	ncb       int
-	insts     []*inst
-	active    int
-	gates     []chan struct{}
-	gateOf    map[*inst]chan struct{}
-	watches   []*watch
-	nextRid   int
-	installed map[int]int // rid -> stamp of the return of the call that installed it
+	hasObserver bool
+	causes      []*callRec
+	c           *core.Ctx
+	state       bool // StateRoutineContainer
+	rc          *routine.RoutineContainer
+	sc          *routine.StateRoutineContainer[int]
+	bo          *recBackoff
+	retry       bool
+	ncb         int
+	insts       []*inst
+	active      int
+	gates       []chan struct{}
+	gateOf      map[*inst]chan struct{}
+	watches     []*watch
+	nextRid     int
+	installed   map[int]int // rid -> stamp of the return of the call that installed it
 	// model pieces that are exact because one driver owns them
 	ctxTag   int // tag of the container's current context (0 = none), owned by driver 0
 	ctxs     map[int]context.Context
@@ -170,6 +184,25 @@ func (w *world) instance(rid int, ctx context.Context, st int) (err error) {
 			w.lastFail = nil
 		}
 	}
+	if !w.single {
+		// C14 under concurrency: the previous instance of this routine exited as the
+		// current one (live context) and no restarting call was in flight since
+		var prev *inst
+		for j := len(w.insts) - 2; j >= 0; j-- {
+			if w.insts[j].rid == rid {
+				prev = w.insts[j]
+				break
+			}
+		}
+		if prev != nil && prev.returned != 0 && prev.liveExit {
+			if prev.err == nil && !w.causeBetween(prev.returned, in.entered, 0) {
+				c.Fail("C14.M1.rerun-after-success", "instance %d entered although instance %d of the same routine had returned nil as the current instance and no RestartRoutine / new routine / new state call was made or in flight since", in.n, prev.n)
+			}
+			if prev.err != nil && !w.retry && !w.causeBetween(prev.returned, in.entered, 1) {
+				c.Fail("C14.M2.rerun-after-error", "instance %d entered although instance %d had returned an error as the current instance, retry is not configured and no restarting call was made or in flight since", in.n, prev.n)
+			}
+		}
+	}
 	w.active++
 	defer func() {
 		w.active--
@@ -233,6 +266,24 @@ func (w *world) instance(rid int, ctx context.Context, st int) (err error) {
 	}
 }
 
+// cause runs a driver call that is allowed to start the routine again and records its interval.
+func (w *world) cause(kind int, f func()) {
+	r := &callRec{inv: w.c.Tick(), kind: kind}
+	w.causes = append(w.causes, r)
+	f()
+	r.ret = w.c.Tick()
+}
+
+// causeBetween: a restarting call of kind <= maxKind was in flight at some moment of [from, to].
+func (w *world) causeBetween(from, to, maxKind int) bool {
+	for _, r := range w.causes {
+		if r.kind <= maxKind && r.inv < to && (r.ret == 0 || r.ret > from) {
+			return true
+		}
+	}
+	return false
+}
+
 func (w *world) newRoutine() (int, routine.Routine, routine.StateRoutine[int]) {
 	w.nextRid++
 	rid := w.nextRid
@@ -286,9 +337,9 @@ func (w *world) mkCtx() int {
 
 // ---- drivers of the concurrent scenario ----
 
-func (w *world) ctxDriver(nops int) {
+func (w *world) ctxStep(i int) {
 	c := w.c
-	for i := 0; i < nops && !c.Failed(); i++ {
+	{
 		w.maybeGate()
 		op := c.S.Plan(8)
 		if i == 0 && op > 2 && c.S.PlanP(800) {
@@ -300,13 +351,14 @@ func (w *world) ctxDriver(nops int) {
 			restart := c.S.PlanP(400)
 			c.Descf("ctx-driver: SetContext(ctx%d, restart=%v)", tag, restart)
 			inv := c.Tick()
-			w.setContext(w.ctxs[tag], restart)
+			// (a context change also restarts an instance whose exit is not yet recorded)
+			w.cause(0, func() { w.setContext(w.ctxs[tag], restart) })
 			w.ctxTag = tag
 			w.checkCancelledBefore(inv, "SetContext(other)", func(in *inst) bool { return in.tag != tag })
 		case 3:
 			if w.ctxTag > 0 {
 				c.Descf("ctx-driver: SetContext(same ctx%d, restart=true)", w.ctxTag)
-				w.setContext(w.ctxs[w.ctxTag], true)
+				w.cause(0, func() { w.setContext(w.ctxs[w.ctxTag], true) })
 			}
 		case 4, 5:
 			c.Descf("ctx-driver: ClearContext")
@@ -314,7 +366,11 @@ func (w *world) ctxDriver(nops int) {
 			w.clearContext()
 			w.ctxTag = 0
 			w.checkCancelledBefore(inv, "ClearContext", func(in *inst) bool { return true })
-		case 6:
+		case 6, 7:
+			if op == 7 && !w.hasObserver {
+				core.YieldN("routinex.pause", c.S.Plan(3))
+				break
+			}
 			// root-cancel: the container's context is cancelled behind its back
 			if w.ctxTag > 0 && c.S.FaultP(500) {
 				c.Descf("ctx-driver: root-cancel ctx%d", w.ctxTag)
@@ -328,9 +384,9 @@ func (w *world) ctxDriver(nops int) {
 	}
 }
 
-func (w *world) fnDriver(nops int) {
+func (w *world) fnStep(i int) {
 	c := w.c
-	for i := 0; i < nops && !c.Failed(); i++ {
+	{
 		w.maybeGate()
 		k := c.S.Plan(8)
 		if i == 0 && c.S.PlanP(800) {
@@ -350,11 +406,11 @@ func (w *world) fnDriver(nops int) {
 			var reset bool
 			if w.state {
 				c.Descf("fn-driver: SetStateRoutine(routine %d nil=%v)", rid, sr == nil)
-				ch, reset, _ = w.sc.SetStateRoutine(sr)
+				w.cause(0, func() { ch, reset, _ = w.sc.SetStateRoutine(sr) })
 				w.hasFn = sr != nil
 			} else {
 				c.Descf("fn-driver: SetRoutine(routine %d nil=%v)", rid, r == nil)
-				ch, reset = w.rc.SetRoutine(r)
+				w.cause(0, func() { ch, reset = w.rc.SetRoutine(r) })
 				w.hasFn = r != nil
 			}
 			w.installed[rid] = c.Tick()
@@ -374,13 +430,17 @@ func (w *world) fnDriver(nops int) {
 			inv := c.Tick()
 			if c.S.PlanP(250) {
 				c.Descf("fn-driver: SwapValue(->%d)", st)
-				_, ch, _, reset, _ := w.sc.SwapValue(func(int) int { return st })
+				var ch <-chan struct{}
+				var reset bool
+				w.cause(0, func() { _, ch, _, reset, _ = w.sc.SwapValue(func(int) int { return st }) })
 				w.curState = w.sc.GetState()
 				w.addWatch(ch, "SwapValue", inv)
 				_ = reset
 			} else {
 				c.Descf("fn-driver: SetState(%d)", st)
-				ch, changed, reset, _ := w.sc.SetState(st)
+				var ch <-chan struct{}
+				var changed, reset bool
+				w.cause(0, func() { ch, changed, reset, _ = w.sc.SetState(st) })
 				w.curState = w.sc.GetState()
 				w.addWatch(ch, "SetState", inv)
 				if reset && changed {
@@ -394,14 +454,16 @@ func (w *world) fnDriver(nops int) {
 	}
 }
 
-func (w *world) restartDriver(nops int) {
+func (w *world) restartStep(i int) {
 	c := w.c
-	for i := 0; i < nops && !c.Failed(); i++ {
+	{
 		w.maybeGate()
 		if c.S.PlanP(700) {
 			c.Descf("restart-driver: RestartRoutine")
 			inv := c.Tick()
-			if w.restart() {
+			var restarted bool
+			w.cause(0, func() { restarted = w.restart() })
+			if restarted {
 				c.S.Count("probe:restart-true")
 				w.checkCancelledBefore(inv, "RestartRoutine(true)", func(in *inst) bool { return true })
 			}
@@ -416,6 +478,27 @@ func (w *world) maybeGate() {
 		g := make(chan struct{})
 		w.gates = append(w.gates, g)
 		simrt.Recv1("routinex.driver-gate", g)
+	}
+}
+
+// observer: WaitExited calls from a bystander. The call is interrupted through
+// its context when the driver loop opens the gate that belongs to it.
+func (w *world) observer(nops int) {
+	c := w.c
+	for i := 0; i < nops && !c.Failed(); i++ {
+		w.maybeGate()
+		ctx, cancel := context.WithCancel(context.Background())
+		g := make(chan struct{})
+		w.gates = append(w.gates, g)
+		c.Actor("observer-interrupt", func() {
+			simrt.Recv1("routinex.observer-gate", g)
+			cancel()
+		})
+		rinr := c.S.PlanP(600)
+		c.Descf("observer: WaitExited(returnIfNotRunning=%v)", rinr)
+		c.S.Count("probe:observer-waitexited")
+		_ = w.waitExited(ctx, rinr, nil)
+		cancel()
 	}
 }
 
@@ -521,10 +604,17 @@ func runConcurrent(c *core.Ctx) {
 	}
 	var tasks []*simrt.Task
 	n0, n1, n2 := c.IntRange(1, maxops), c.IntRange(1, maxops), c.IntRange(0, maxops)
-	tasks = append(tasks, c.Actor("ctx-driver", func() { w.ctxDriver(n0) }))
-	tasks = append(tasks, c.Actor("fn-driver", func() { w.fnDriver(n1) }))
+	tasks = append(tasks, c.RelayActor("ctx-driver", n0, w.ctxStep)...)
+	tasks = append(tasks, c.RelayActor("fn-driver", n1, w.fnStep)...)
 	if n2 > 0 {
-		tasks = append(tasks, c.Actor("restart-driver", func() { w.restartDriver(n2) }))
+		tasks = append(tasks, c.RelayActor("restart-driver", n2, w.restartStep)...)
+	}
+	if c.S.PlanP(500) {
+		// an observer calls WaitExited while the drivers work: it reads (and may
+		// lazily clear) the container's context between their calls
+		n3 := c.IntRange(1, 3)
+		w.hasObserver = true
+		tasks = append(tasks, c.Actor("observer", func() { w.observer(n3) }))
 	}
 	for round := 0; round < 400; round++ {
 		c.S.Quiesce()
@@ -595,7 +685,7 @@ func runConcurrent(c *core.Ctx) {
 func init() {
 	core.Register(&core.Scenario{
 		Name:  "routine",
-		Props: []string{"C04", "C05"},
+		Props: []string{"C04", "C05", "C14"},
 		Run:   runConcurrent,
 		NonTrivial: func(n map[string]int) bool {
 			return n["probe:instance-cancelled"]+n["probe:instance-deaf"] > 0 && (n["probe:reset-true"]+n["probe:restart-true"] > 0)
